@@ -175,6 +175,14 @@ fn roles(args: &[String]) -> i32 {
         Some("c09-sender") => c09::role_sender(&args[1..]),
         Some("c09-reader") => c09::role_reader(&args[1..]),
         Some("c12-crasher") => c12::role_crasher(&args[1..]),
+        Some("vgtest") => {
+            // self-test of the definedness monitor: must be reported by memcheck
+            let p = std::hint::black_box(unsafe { libc::malloc(4096) } as *const u8);
+            let s = unsafe { std::slice::from_raw_parts(p, 4096) };
+            util::touch_all(s);
+            unsafe { libc::free(p as *mut libc::c_void) };
+            0
+        },
         Some("lsfd") => {
             // unrelated child: print inherited descriptors
             for (fd, t) in util::fd_table() {
